@@ -525,6 +525,30 @@ def oracle(chk, n, n_hankel, n_psd_mat):
 
     # ---- the spectrum used to generate screens: both copies identical, r0^(-5/3), and its Hankel transform is D
     psds = psd_callables(chk)
+    # the spectrum each screen function really uses, observed THROUGH the public function (unit draws: t1check.OBSERVERS), against the
+    # PSD_phi expression with the parameters the property names — fm = 5.92/(2π l0), f0 = 1/L0: ties the arguments of the expression
+    # (which inner / outer scale is handed to it), not only its form
+    for fn in ("ft_phase_screen", "ft_sh_phase_screen"):
+        obs = t1check.OBSERVERS.get("psd_" + fn)
+        if fn not in psds or obs is None or getattr(psds[fn], "is_observer", False):
+            continue
+        for it in range(6):
+            r0, L0, l0 = logu(rng, 0.05, 0.5), logu(rng, 1.0, 100.0), logu(rng, 0.001, 0.05)
+            f = logu(rng, 0.02, 20.0)
+            fm, f0 = 5.92 / (2 * numpy.pi * l0), 1. / L0
+            chk.oracle_cases += 1
+            chk.count("oracle:psd-observed:" + fn)
+            chk.case(("oracle-psd-observed", fn, r0, L0, l0, f))
+            try:
+                with numpy.errstate(all="ignore"):
+                    got, want = float(obs(f, fm, f0, r0)), float(call(psds[fn], f, fm, f0, r0))
+            except Exception as ex:
+                chk.broke("correspondence", "the spectrum of %s cannot be observed through the public function (%s: %s)" % (fn, type(ex).__name__, str(ex)[:120]))
+                break
+            if not abs(got - want) <= 1e-9 * abs(want):
+                bad("psd:observed:" + fn, "%s(r0=%.4g, L0=%.4g, l0=%.4g): the spectrum the screen is made from, observed with unit draws at f = %.4g, "
+                    "is %.6g; PSD_phi(f, fm = 5.92/(2π l0), f0 = 1/L0, r0) = %.6g" % (fn, r0, L0, l0, f, got, want), r0=r0, L0=L0, l0=l0, f=f)
+                break
     if len(psds) == 2:
         for it in range(n_hankel):
             chk.oracle_cases += 1
